@@ -49,6 +49,10 @@ CHECKS = {
    text='(a) 70k trees (every tree of depth <=1 over {x,y,0,1,2,-0.0,0.5}, every operator above a depth-1 tree): z3 decides that wherever the original is defined each rewrite (simplify, flatten, flatten.simplify and their second applications) is defined with the same value, and that an undefined point stays undefined. (b) 8 spellings of a coefficient in models where bound inference matters: all accepted or all rejected, and pairwise projection equivalence of the compiled linear models including best objective over auxiliary extensions.',
    note='Typing precondition (stated in smt/c10.py): a non-constant operand of a logic operator is Boolean-valued, as the type checker and linearizer enforce; numeric constants in logic positions are unrestricted. Constant folding is compared with a 1e-9 relative margin (f64). Idempotence as a structural identity is not claimed.',
    ref='DESIGN §3 C10'),
+ 'C03': dict(cat=TV, tech='real end-to-end run (parse, type-check, transform, linearize, default solver) on texts printed from generator trees; z3 decides on the generator tree that no satisfying assignment is better / that none exists',
+   text='For every text of family P over bounded domains the real RoocSolver::try_new(text).solve_using(auto_solver) is run; judged on the generator\'s own tree by z3: a returned point satisfies the source and no satisfying assignment has a better objective (unsat query over all assignments); an infeasible verdict means Src is unsatisfiable; a compile error, unbounded verdict, panic or hang on a bounded model is a violation.',
+   note='Programs cannot be made symbolic through pest; the quantified parts (no better assignment, no satisfying assignment) are the solver verdicts. The property text mentions enumeration of the declared domains; here z3 decides the same statement for all real values of continuous variables. Printer textgen.py + sem.py are the trusted meaning of the text.',
+   ref='DESIGN §3 C03'),
 }
 NA = {
  'C04': 'no value quantifier: every clause evaluates one returned point; the solver bridges (microlp, Clarabel, IndexMap) cannot be executed symbolically (DESIGN §3 C04); its premises are still evaluated inside C03/C05/C15',
